@@ -27,6 +27,8 @@ type Check struct {
 	// HangIsViolation: the property promises termination, so a watchdog firing
 	// inside a monitored call is a violation (otherwise inconclusive).
 	HangIsViolation bool
+	// CaseLimitS: per tier, the bounded-progress limit for one case (0 = 150 s quick / 1200 s thorough).
+	CaseLimitS map[string]int
 	// MinEvals / MinClasses: below these the run is inconclusive.
 	MinEvals   map[string]int64
 	MinClasses map[string]int64
